@@ -329,11 +329,14 @@ def needsRemoval (typ left : Nat) : Bool :=
 /-- `money == MaxUint64` means "everything". -/
 def refundMoney (m : Miner) (amount : Nat) : Nat := if amount = maxU64 then m.stake else amount
 
-/-- The writes of a successful `GetRefundStake` + the executor's bookkeeping on `context["refund"]`. -/
+/-- The registry writes of a successful `GetRefundStake`: remove/abort below the minimum, else update. -/
+def refundCore (cfg : Cfg) (st : State) (id src : Bytes) (m : Miner) (money : Nat) : State :=
+  if needsRemoval m.typ (m.stake - money) then removeMiner cfg st id src m.typ (m.stake - money)
+  else updateMiner cfg st { m with stake := m.stake - money } none
+
+/-- … followed by the executor's bookkeeping on `context["refund"]`. -/
 def refundApply (cfg : Cfg) (st : State) (id src : Bytes) (m : Miner) (money : Nat) : State :=
-  let left := m.stake - money
-  let st1 := if needsRemoval m.typ left then removeMiner cfg st id src m.typ left
-             else updateMiner cfg st { m with stake := left } none
+  let st1 := refundCore cfg st id src m money
   { st1 with pending := pendingAdd st1.pending (st1.height + refundDelay) m.account (money * wei) }
 
 /-- `RefundManager.GetRefundStake` + `minerRefundExecutor.Execute`. -/
